@@ -113,14 +113,15 @@ def _sections(text):
     return {m.group(1): m.group(2) for m in re.finditer(r'-- BEGIN (\w+)\n(.*?)-- END \1\n', text, re.S)}
 
 
-def generate(group):
-    """-> (lean text, info, lost) ; lost = {definition: reason}"""
+def generate(group, force_old=None, old=None):
+    """-> (lean text, info, lost) ; lost = {definition: reason}.  force_old = {definition: reason}: keep the previous section."""
     g = GROUPS[group]
     path = os.path.join(LEAN, f'TonVerif/Generated/{group}.lean')
-    try:
-        old = _sections(open(path).read())
-    except FileNotFoundError:
-        old = {}
+    if old is None:
+        try:
+            old = _sections(open(path).read())
+        except FileNotFoundError:
+            old = {}
     trees = {}
     out = [f'/- GENERATED by harness/translate/arith.py (pyarith.py) from the current source; do not edit. -/',
            'import TonVerif.PyInt'] + [f'import {i}' for i in g['imports']] + ['set_option linter.unusedVariables false', 'namespace TonVerif.Generated', 'open TonVerif', '']
@@ -128,6 +129,8 @@ def generate(group):
     for t in g['targets']:
         file = t['kw'].get('file') or g['src']
         try:
+            if force_old and t['lean'] in force_old:
+                raise Untranslatable(force_old[t['lean']])
             if file not in trees:
                 trees[file] = ast.parse(open(os.path.join(REPO, file)).read())
             fn = pyarith.find_def(trees[file], t['cls'], t['fn'])
@@ -148,13 +151,128 @@ def generate(group):
 
 def regenerator(group):
     def regenerate():
-        text, info, lost = generate(group)
-        changed = write_if_changed(os.path.join(LEAN, f'TonVerif/Generated/{group}.lean'), text)
+        path = os.path.join(LEAN, f'TonVerif/Generated/{group}.lean')
+        try:
+            old = _sections(open(path).read())
+        except FileNotFoundError:
+            old = {}
+        text, info, lost = generate(group, old=old)
+        changed = write_if_changed(path, text)
+        bad = validate(group, [d for d in info])
+        if bad:                      # the translation does not compute what Python computes: do not keep it
+            text, info, lost = generate(group, force_old=bad, old=old)
+            changed = write_if_changed(path, text) or changed
         if lost:
             raise Untranslatable(f'kept the previous translation of {lost}; regenerated {sorted(info)} (file changed: {changed})')
         return changed, info
     regenerate.__name__ = f'regenerate_{group}'
     return regenerate
+
+
+# ---------------------------------------------------------------------------- translator validation
+
+class _Subst(ast.NodeTransformer):
+    def __init__(self, binds):
+        self.binds = binds
+
+    def visit(self, node):
+        if isinstance(node, ast.expr) and not isinstance(getattr(node, 'ctx', None), (ast.Store, ast.Del)):
+            key = ast.unparse(node)
+            if key in self.binds:
+                return ast.copy_location(ast.Name(id='p__' + self.binds[key][0], ctx=ast.Load()), node)
+        return self.generic_visit(node)
+
+
+def py_value(t, fn, pt):
+    """Runs the SOURCE code that definition t was translated from on the point pt (Python semantics).  'exc' = it raised."""
+    import copy
+    import math
+    what, node = pyarith.pick(fn, t['how'])
+    env = {'p__' + n: pt[n] for n in pt}
+    env.update(math=math, __builtins__={'bin': bin, 'len': len, 'min': min, 'max': max, 'abs': abs, 'int': int, 'sum': sum, 'bool': bool,
+                                        'Exception': Exception, 'ValueError': ValueError})
+    for u in t['kw'].get('unwrap', ()):
+        env[u] = lambda x: x
+    sub = _Subst(t['binds'])
+    try:
+        if what == 'expr':
+            v = eval(compile(ast.fix_missing_locations(ast.Expression(body=sub.visit(copy.deepcopy(node)))), '<src>', 'eval'), env)
+        else:
+            body = [sub.visit(copy.deepcopy(x)) for x in node]
+            f = ast.FunctionDef(name='f__', args=ast.arguments(posonlyargs=[], args=[], kwonlyargs=[], kw_defaults=[], defaults=[]),
+                                body=body, decorator_list=[], type_params=[])
+            exec(compile(ast.fix_missing_locations(ast.Module(body=[f], type_ignores=[])), '<src>', 'exec'), env)
+            if t['ret'] == 'raises':
+                try:
+                    env['f__']()
+                    v = False
+                except Exception:
+                    v = True
+            else:
+                v = env['f__']()
+    except Exception:
+        return 'exc'
+    if isinstance(v, (bytes, bytearray)):
+        v = int.from_bytes(v, 'big')
+    if t['ret'] in ('Bool', 'raises'):
+        return 'true' if v else 'false'
+    return str(int(v))
+
+
+def validate(group, defs, per_def=300):
+    """Differential validation of the TRANSLATOR: the regenerated Lean definition, evaluated by Lean, must return on every
+    sampled grid point what the Python source returns (points where Python raises are skipped).  -> {definition: reason}."""
+    g = GROUPS[group]
+    lines = [f'import TonVerif.Generated.{group}', 'open TonVerif TonVerif.Generated',
+             'def parseInts (s : String) : List Int := (s.splitOn " ").filterMap String.toInt?']
+    work = []
+    trees = {}
+    for t in g['targets']:
+        if t['lean'] not in defs or not t['params']:
+            continue
+        decl = {n: ty for n, ty in t['binds'].values()}
+        ps = t['params']
+        pts = [[]]
+        for p_ in ps:
+            pts = [x + [v] for x in pts for v in t['grid'][p_]]
+        pts = pts[::max(1, len(pts) // per_def)]
+        enc = ' '.join(str(int(v)) for pt in pts for v in pt)
+        lets = ' '.join(f'let {q} : {decl[q]} := {_conv(q, decl[q])};' for q in ps)
+        pat = ', '.join('x_' + q for q in ps)
+        lines.append(f'def v_{t["lean"]} : List Int := parseInts "{enc}"')
+        lines.append(f'partial def go_{t["lean"]} : List Int → List String → List String\n'
+                     f'  | {" :: ".join("x_" + q for q in ps)} :: rest, acc => {lets} go_{t["lean"]} rest (toString ({t["lean"]} {" ".join(ps)}) :: acc)\n'
+                     f'  | _, acc => acc.reverse')
+        lines.append(f'#eval IO.println (s!"VAL {t["lean"]} " ++ String.intercalate " " (go_{t["lean"]} v_{t["lean"]} []))')
+        work.append((t, pts))
+    if not work:
+        return {}
+    tmp = os.path.join(LEAN, f'.srcval_{os.getpid()}.lean')
+    with open(tmp, 'w') as f:
+        f.write('\n'.join(lines) + '\n')
+    try:
+        subprocess.run(['lake', 'build', f'TonVerif.Generated.{group}'], cwd=LEAN, capture_output=True, text=True, timeout=600)
+        p = subprocess.run(['lake', 'env', 'lean', tmp], cwd=LEAN, capture_output=True, text=True, timeout=600)
+    finally:
+        os.unlink(tmp)
+    bad = {}
+    for t, pts in work:
+        m = re.search(r'^VAL ' + t['lean'] + r' (.*)$', p.stdout, re.M)
+        if not m:
+            bad[t['lean']] = 'validation: the regenerated definition could not be evaluated: ' + (p.stdout + p.stderr)[-200:]
+            continue
+        got = m.group(1).split()
+        file = t['kw'].get('file') or g['src']
+        if file not in trees:
+            trees[file] = ast.parse(open(os.path.join(REPO, file)).read())
+        fn = pyarith.find_def(trees[file], t['cls'], t['fn'])
+        for pt, lv in zip(pts, got):
+            d = dict(zip(t['params'], [bool(v) if dict(t['binds'].values())[n] == 'Bool' else v for n, v in zip(t['params'], pt)]))
+            pv = py_value(t, fn, d)
+            if pv != 'exc' and pv != lv:
+                bad[t['lean']] = f'validation: Lean computes {lv}, Python computes {pv} at {d}'
+                break
+    return bad
 
 
 # ---------------------------------------------------------------------------- search hook
